@@ -1299,6 +1299,14 @@ def flip(a, axis=None):
         if a.n is not None:
             raise Unsupported("flip varlen")
         return SArr.new(list(reversed(a.flat_list())), a.shape_cap, None, a.dtype)
+    if a.ndim == 2 and axis in (1, -1):
+        r, c = a.shape_cap
+        fl = a.flat_list()
+        return SArr.new([fl[i * c + (c - 1 - j)] for i in range(r) for j in range(c)], a.shape_cap, a.n, a.dtype)
+    if a.ndim == 2 and axis == 0 and a.n is None:
+        r, c = a.shape_cap
+        fl = a.flat_list()
+        return SArr.new([fl[(r - 1 - i) * c + j] for i in range(r) for j in range(c)], a.shape_cap, None, a.dtype)
     raise Unsupported("flip nd")
 
 
